@@ -4,7 +4,6 @@ import (
 	"bufio"
 	"errors"
 	"fmt"
-	"strconv"
 	"strings"
 
 	"github.com/specterops/dawgs/cypher/frontend"
@@ -27,17 +26,16 @@ func init() { register("c11pg", c11pgSuite{}) }
 
 type c11pgVisitor struct {
 	walk.VisitorHandler
-	k   int
-	act byte
-	n   int
-	log []string
+	script c11Script
+	n      int
+	log    []string
 }
 
 func (s *c11pgVisitor) event(kind string, node pgsql.SyntaxNode) {
 	s.n++
 	s.log = append(s.log, kind+":"+fmt.Sprintf("%T", node))
-	if s.n == s.k {
-		switch s.act {
+	if s.script.fires(s.n, kind[0], fmt.Sprintf("%T", node)) {
+		switch s.script.act {
 		case 'c':
 			s.Consume()
 		case 'd':
@@ -52,8 +50,8 @@ func (s *c11pgVisitor) Enter(node pgsql.SyntaxNode) { s.event("E", node) }
 func (s *c11pgVisitor) Visit(node pgsql.SyntaxNode) { s.event("V", node) }
 func (s *c11pgVisitor) Exit(node pgsql.SyntaxNode)  { s.event("X", node) }
 
-func c11pgWalk(root pgsql.SyntaxNode, k int, act byte) (res string, log []string, errText string) {
-	vis := &c11pgVisitor{VisitorHandler: walk.NewCancelableErrorHandler(), k: k, act: act}
+func c11pgWalk(root pgsql.SyntaxNode, script c11Script) (res string, log []string, errText string) {
+	vis := &c11pgVisitor{VisitorHandler: walk.NewCancelableErrorHandler(), script: script}
 	defer func() {
 		if p := recover(); p != nil {
 			res, log, errText = "panic", vis.log, fmt.Sprint(p)
@@ -117,9 +115,12 @@ func (c11pgSuite) Gen(rng *Rng, tier string, w *bufio.Writer, stats *Stats) {
 		stmt, why := c11pgStatement(c.Query)
 		scripts := []string{"pg:0:n"}
 		if why == "" {
-			_, log, _ := c11pgWalk(stmt, 0, 'n')
+			_, log, _ := c11pgWalk(stmt, c11NeverScript("pg"))
 			for i := 0; i < extra && len(log) > 0; i++ {
 				scripts = append(scripts, fmt.Sprintf("pg:%d:%c", 1+rng.Intn(len(log)), "cde"[rng.Intn(3)]))
+			}
+			for _, sc := range c11ScheduleScripts(rng, "pg", len(log), 4, false) {
+				scripts = append(scripts, sc.String())
 			}
 			stats.Inc("translated")
 		}
@@ -149,7 +150,7 @@ func (r *c11pgRunner) Step(t []string, raw string) string {
 		r.stats.Inc("pg." + why)
 		return why
 	}
-	res0, log0, err0 := c11pgWalk(stmt, 0, 'n')
+	res0, log0, err0 := c11pgWalk(stmt, c11NeverScript("pg"))
 	tree, balanced := c11pgTree(log0)
 	if res0 != "ok" || !balanced {
 		// the pgsql cursor constructor has no case for some node of this statement (e.g. DML statements): the walk
@@ -162,16 +163,13 @@ func (r *c11pgRunner) Step(t []string, raw string) string {
 	}
 	var b strings.Builder
 	b.WriteString("ok")
-	for _, sc := range strings.Split(t[1], ",") {
-		f := strings.Split(sc, ":")
-		if len(f) != 3 || f[0] != "pg" || len(f[2]) != 1 {
-			return "bad-op"
-		}
-		k, err := strconv.Atoi(f[1])
-		if err != nil {
-			return "bad-op"
-		}
-		res, log, _ := c11pgWalk(stmt, k, f[2][0])
+	scripts, ok := c11ParseScriptsFor(t[1], "pg")
+	if !ok {
+		return "bad-op"
+	}
+	for _, script := range scripts {
+		sc := script.String()
+		res, log, _ := c11pgWalk(stmt, script)
 		r.stats.Inc("pg.walk." + res)
 		txt := "-"
 		if len(log) > 0 {
